@@ -108,7 +108,17 @@ pub fn gen_model(rng: &mut Rng, max_needs: usize, max_aux: usize, max_defs: usiz
         for i in 0..n {
             let k = 1 + rng.usize_below(5);
             // the base definition conventionally has index 1; list it sometimes
-            let ndx = if i == 0 && rng.chance(1, 2) { 1 } else { pool.pop().unwrap_or(3) };
+            // round 9: now and then a definition shares its index with a requirement of the same object (unique
+            // within each section, so both queries still have exactly one answer: C13 speaks of "the auxiliary
+            // record whose index equals ..." and "the definition with that index" independently)
+            let shared: Vec<u16> = m.needs.iter().flat_map(|n| n.auxes.iter().map(|a| a.other)).filter(|o| !m.defs.iter().any(|d| d.ndx == *o)).collect();
+            let ndx = if i == 0 && rng.chance(1, 2) {
+                1
+            } else if !shared.is_empty() && rng.chance(1, 6) {
+                *rng.pick(&shared)
+            } else {
+                pool.pop().unwrap_or(3)
+            };
             m.defs.push(Def {
                 ndx,
                 flags: rng.boundary(16) as u16,
